@@ -283,7 +283,9 @@ ErrFormats == ErrDirs \cup {x \o Fcolon \o y : x \in ErrDirs, y \in ErrDirs}
 QErrFormats == ErrDirs2 \cup {x \o Fcolon \o y : x \in ErrDirs2, y \in ErrDirs2} \cup {Fw \o Fw \o Fw, FsharpW, FplusW}
 ErrOperand(kind, i) ==
   CASE kind = "er"     -> ErObj(i)
-    [] kind = "erfm"   -> TObj(i, {"ER", "FM"}, <<>>, <<SWrite(P(i + 5))>>, P(i), <<>>)
+    \* (its Format method shows the verb it was called with: a correctly used %w must reach it as %v)
+    [] kind = "erfm"   -> TObj(i, {"ER", "FM"}, <<>>, <<SWrite(P(i + 5)), SWriteVerb>>, P(i), <<>>)
+    [] kind = "erempty" -> TObj(i, {"ER"}, <<>>, <<>>, <<>>, <<>>)                  \* an error whose message is empty
     [] kind = "ersf"   -> TObj(i, {"ER", "SF"}, <<SSafeString(P(600 + i)), SUnsafeString(P(700 + i))>>, <<>>, P(i), <<>>)
     [] kind = "ersm"   -> TObj(i, {"ER", "SM"}, <<>>, <<>>, P(i), <<>>)
     \* a SafeFormatter (not an error) that itself prints an error with %w through the printer it was given: the nested
@@ -302,8 +304,8 @@ ErrOperand(kind, i) ==
     \* pre-redacted operands: inserted as they are whatever the verb (F9: also under %w)
     [] kind = "rstr"   -> TRStr(i, P(i))
     [] kind = "rbytes" -> TRBytes(i, P(i))
-ErrKinds  == {"er", "erfm", "ersf", "ersm", "sfw", "stpan", "safe", "unsafe", "ernil", "nil", "int", "str", "st", "erpan", "struct", "rstr", "rbytes"}
-QErrKinds == {"er", "erfm", "ersf", "ersm", "sfw", "ernil", "erpan", "stpan", "safe", "unsafe", "nil", "int", "str", "st", "struct", "rstr", "rbytes"}
+ErrKinds  == {"er", "erfm", "ersf", "ersm", "sfw", "stpan", "safe", "unsafe", "ernil", "nil", "int", "str", "st", "erpan", "struct", "rstr", "rbytes", "erempty"}
+QErrKinds == {"er", "erfm", "ersf", "ersm", "sfw", "ernil", "erpan", "stpan", "safe", "unsafe", "nil", "int", "str", "st", "struct", "rstr", "rbytes", "erempty"}
 ErrRoots == LET ks == IF Slice = "errorf" THEN ErrKinds ELSE QErrKinds IN
             {<<>>} \cup {<<ErrOperand(k1, 10)>> : k1 \in ks} \cup {<<ErrOperand(k1, 10), ErrOperand(k2, 20)>> : k1 \in ks, k2 \in ks}
 \* (objects are named ints in the harness: '*' would read their handle as a width; kept out of star formats)
@@ -418,7 +420,7 @@ RLeaf(kind, i) ==
     [] kind = "chan" -> TChan(i)                   [] kind = "func" -> TFunc(i)             [] kind = "nilptr" -> TNilPtr(i)
     [] kind = "empty" -> TStr(i, <<>>)             [] kind = "nlstr" -> TStr(i, <<A, NL, A>>)
     [] kind = "mkstr" -> TStr(i, StartM \o <<A>>)
-    [] kind = "fm" -> TObj(i, {"FM"}, <<>>, <<SWrite(<<102>> \o P(i + 1)), SWriteStr(P(i + 2))>>, <<>>, <<>>)
+    [] kind = "fm" -> TObj(i, {"FM"}, <<>>, <<SWrite(<<102>> \o P(i + 1)), SWriteVerb, SWriteStr(P(i + 2))>>, <<>>, <<>>)
     [] kind = "sf" -> TObj(i, {"SF"}, <<SSafeString(<<115>>), SUnsafeString(P(i + 1)), SSafeInt(i + 2, 12)>>, <<>>, <<>>, <<>>)
     [] kind = "sfnum" -> TObj(i, {"SF"}, <<SSafeInt(i + 1, 12), SSafeString(<<58>>), SSafeUint(i + 2, 7), SSafeFloat(i + 3)>>, <<>>, <<>>, <<>>)
     [] kind = "stpan" -> TObj(i, {"ST"}, <<>>, <<>>, <<>>, <<TStr(i + 1, P(i + 1))>>)
